@@ -44,7 +44,7 @@ GraphT = Tup(List(NodeT), List(EdgeT), List(NodeT))
 RuleT = Tup(ELabelT, GraphT)
 HrgT = Tup(List(ELabelT), ELabelT, List(Tup(ELabelT, List(RuleT))))
 AxisT = Sum("axis", "Json", {})
-_AxisR = Rec("axis", "d_axis", lambda: AxisT)
+_AxisR = Rec("axis", "d_jaxis", lambda: AxisT)
 AxisT.ctors.update({"APhys": Tup(Nat, Nat), "AProd": List(_AxisR), "ASum": Tup(Nat, _AxisR, Nat)})
 TensT = Sum("tens", "Json", {})
 _TensR = Rec("tens", "d_tens", lambda: TensT)
@@ -77,7 +77,7 @@ WspecT = _RecordSum("wspec", "Json", "mkWS", ["ws_phys", "ws_expand", "ws_vaxes"
                     [TensT, List(Nat), List(VspecT), NumT])
 
 GLUE_PREAMBLE = ("let rec d_json (s : sexp) : Json.json = %s s\n"
-                 "let rec d_axis (s : sexp) : Json.axis = %s s\n"
+                 "let rec d_jaxis (s : sexp) : Json.axis = %s s\n"
                  "let rec d_tens (s : sexp) : Json.tens = %s s\n"
                  "let rec d_vspec (s : sexp) : Json.vspec = %s s\n") % (JsonT.dec(), AxisT.dec(), TensT.dec(), VspecT.dec())
 
